@@ -21,11 +21,16 @@ def find1(f, name, self_part, what=None):
 
 
 def summ(f, path, names, opaque=None):
+    import roles
     outs, it = evalsum.summarize_fn(f, path, arg_names=names, opaque=opaque)
+    b = f.bodies[path]
+    # the rule list / function table / symbol table under their role names, whatever private structs carry them
+    self_adt = f.adt_of(f.peel(b["locals"][1]["ty"])) if b["arg_count"] else None
+    canon = roles.Canon(f, self_adt, names[0] if names else "self")
     rows = []
     for c, r, s, rv in outs:
         calls = [(short_callee(e[1]),) + tuple(show(norm(a)) for a in e[2]) for e in s.events if e[0] == "call"]
-        rows.append(entry_api({"conds": dict(c), "ret": r, "calls": calls}))
+        rows.append(entry_api(canon({"conds": dict(c), "ret": r, "calls": calls})))
     return rows
 
 
@@ -144,13 +149,17 @@ def run(res, f, tier):
     outs_b, _it = evalsum.summarize_fn(f, build, arg_names=["self"])
     moved = {}
     if len(outs_b) == 1:
-        rv = outs_b[0][3]
-        adt = f.adts.get("ruleset::RuleSet")
-        if rv[0] == "adt" and rv[1] == "ruleset::RuleSet" and adt:
-            for fld, val in zip(adt["variants"][0]["fields"], rv[3]):
-                moved[fld["name"]] = show(norm(val))
-        elif rows[0]["ret"] == "self":
+        # the ruleset that comes out, by role: a constructor term, the builder's own ruleset (`self.ruleset`), or the
+        # builder itself when it is the ruleset
+        import roles as _roles
+        cn = _roles.Canon(f, "ruleset::builder::Builder", "self")
+        if rows[0]["ret"] == "self":
             moved = {k: "self." + k for k in ("rules", "functions", "symbols")}
+        elif "ruleset::RuleSet" in cn.car:
+            rr, _oth = cn._roles_of_term("ruleset::RuleSet", cn.leaves(outs_b[0][1]))
+            if rr is None:
+                rr, _oth = cn._roles_of_term("ruleset::RuleSet", rows[0]["ret"])
+            moved = rr or {}
     # the three collections the builder accepted go unchanged into the ruleset (further fields are not C15's)
     ob(len(rows) == 1 and all(moved.get(k) == "self." + k for k in ("rules", "functions", "symbols")), "C15|build",
        "build must move the accepted rules, functions and symbols unchanged into the RuleSet: %s" % [r["ret"] for r in rows])
@@ -329,6 +338,28 @@ def run(res, f, tier):
                         writers["functions"].add(b.get("parent") or d)
                     if ts == "std::vec::Vec<ruleset::rule::Rule>":
                         writers["rules"].add(b.get("parent") or d)
+    # a private helper that only the admitted writer calls (a method of a wrapper around the list) writes on its behalf
+    callers_of = {}
+    for d_, b_ in f.bodies.items():
+        for blk_ in b_["blocks"]:
+            t_ = blk_["term"]
+            if t_["k"] == "call":
+                c_ = callee_of(t_)
+                if c_:
+                    callers_of.setdefault(c_.get("resolved") or c_["path"], set()).add(b_.get("parent") or d_)
+
+    def on_behalf(root):
+        allowed = {root}
+        grew = True
+        while grew:
+            grew = False
+            for d_ in list(writers["rules"] | writers["functions"]):
+                if d_ not in allowed and callers_of.get(d_) and callers_of[d_] <= allowed:
+                    allowed.add(d_)
+                    grew = True
+        return allowed
+    writers["functions"] -= on_behalf(add_boxed) - {add_boxed}
+    writers["rules"] -= on_behalf(with_rule) - {with_rule}
     ob(writers["functions"] <= {add_boxed}, "C15|who-writes|functions", "the function table may be mutated only by %s: %s" % (ADM, sorted(writers["functions"])))
     ob(writers["rules"] <= {with_rule}, "C15|who-writes|rules", "the rule list may be mutated only by with_rule: %s" % sorted(writers["rules"]))
     # ------------------------------------------------------------------ symbols: last registration wins
